@@ -100,6 +100,73 @@ Definition tol3 : Q := 31 # 10000.
 
 Definition within (t a b : Q) : bool := Qle_bool (Qabs (a - b)) (t * Qabs b).
 
+(* ------------------------------------------------------------------ the finite table facts of C09
+   Boolean tests on the exact factors [k_* u v] of the REGENERATED table (Model/Units.v).  Proofs/Units.v
+   proves that each holds for every unit / ordered pair / triple ([forallb ... = true] by vm_compute) and
+   lifts them to every magnitude and sign by linearity.  They live here, proof-free, so that the run can
+   still LIST the entries that fail ([table_failures]) when a changed factor breaks one of those proofs. *)
+Definition id_ok {U} (k : U -> U -> Q) (u : U) : bool := Qeq_bool (k u u) 1.
+Definition rt_ok {U} (k : U -> U -> Q) (p : U * U) : bool :=
+  within tol (k (fst p) (snd p) * k (snd p) (fst p)) 1.
+Definition phys_ok {U} (k : U -> U -> Q) (si : U -> Q) (p : U * U) : bool :=
+  within tol (k (fst p) (snd p)) (si (fst p) / si (snd p)).
+Definition pos_ok {U} (k : U -> U -> Q) (b : U) (u : U) : bool := Qltb 0 (k u b) && Qltb 0 (k b u).
+
+(* combined factor of a constructor (what the model multiplies the quotient / product of the raw inputs by)
+   and its specification (the same combination of exact SI factors) *)
+Definition time_factor (su : speed_unit) (du : dist_unit) (tu : time_unit) : Q :=
+  k_dist du base_distance_unit / k_speed su base_speed_unit * k_time base_time_unit tu.
+Definition time_si (su : speed_unit) (du : dist_unit) (tu : time_unit) : Q :=
+  si_distance du / si_speed su / si_time tu.
+Definition speed_factor (tu : time_unit) (du : dist_unit) (su : speed_unit) : Q :=
+  k_dist du base_distance_unit / k_time tu base_time_unit * k_speed base_speed_unit su.
+Definition speed_si (tu : time_unit) (du : dist_unit) (su : speed_unit) : Q :=
+  si_distance du / si_time tu / si_speed su.
+Definition energy_factor (eru : energy_rate_unit) (du : dist_unit) : Q :=
+  k_dist du (energy_rate_distance_unit eru).
+Definition energy_si (eru : energy_rate_unit) (du : dist_unit) : Q :=
+  si_distance du / si_distance (rate_distance eru).
+
+Definition time_triples : list (speed_unit * dist_unit * time_unit) := list_prod (list_prod all_speed all_dist) all_time.
+Definition speed_triples : list (time_unit * dist_unit * speed_unit) := list_prod (list_prod all_time all_dist) all_speed.
+Definition energy_pairs : list (energy_rate_unit * dist_unit) := list_prod all_energy_rate all_dist.
+
+Definition time_ok (p : speed_unit * dist_unit * time_unit) : bool :=
+  let '(su, du, tu) := p in within tol3 (time_factor su du tu) (time_si su du tu).
+Definition speed_ok (p : time_unit * dist_unit * speed_unit) : bool :=
+  let '(tu, du, su) := p in within tol3 (speed_factor tu du su) (speed_si tu du su).
+Definition energy_ok (p : energy_rate_unit * dist_unit) : bool :=
+  let '(eru, du) := p in
+  within tol (energy_factor eru du) (energy_si eru du)
+  && energy_eqb (energy_rate_energy_unit eru) (rate_energy eru)
+  && dist_eqb (energy_rate_distance_unit eru) (rate_distance eru).
+
+(* the entries that fail, as text "<fact> <family> <unit> <unit> [<unit>]" (variant identifiers) *)
+Local Open Scope string_scope.
+Definition fails {A} (what : string) (show : A -> string) (ok : A -> bool) (l : list A) : list string :=
+  map (fun a => what ++ " " ++ show a) (filter (fun a => negb (ok a)) l).
+Definition show2 {U} (name : U -> string) (p : U * U) : string := name (fst p) ++ " " ++ name (snd p).
+Definition family_failures {U} (fam : string) (name : U -> string) (all : list U) (k : U -> U -> Q)
+                           (si : option (U -> Q)) (base : option U) : list string :=
+  fails ("identity " ++ fam) (fun u => name u ++ " " ++ name u) (id_ok k) all
+  ++ fails ("roundtrip " ++ fam) (show2 name) (rt_ok k) (list_prod all all)
+  ++ match si with Some f => fails ("physical " ++ fam) (show2 name) (phys_ok k f) (list_prod all all) | None => [] end
+  ++ match base with Some b => fails ("positive " ++ fam) (fun u => name u ++ " " ++ name b) (pos_ok k b) all | None => [] end.
+Definition table_failures : list string :=
+  family_failures "distance" dist_name all_dist k_dist (Some si_distance) (Some base_distance_unit)
+  ++ family_failures "time" time_name all_time k_time (Some si_time) (Some base_time_unit)
+  ++ family_failures "speed" speed_name all_speed k_speed (Some si_speed) (Some base_speed_unit)
+  ++ family_failures "energy" energy_name all_energy k_energy None None
+  ++ family_failures "grade" grade_name all_grade k_grade (Some si_grade) None
+  ++ family_failures "weight" weight_name all_weight k_weight (Some si_weight) None
+  ++ fails "create_time" (fun p => let '(su, du, tu) := p in speed_name su ++ " " ++ dist_name du ++ " " ++ time_name tu)
+           time_ok time_triples
+  ++ fails "create_speed" (fun p => let '(tu, du, su) := p in time_name tu ++ " " ++ dist_name du ++ " " ++ speed_name su)
+           speed_ok speed_triples
+  ++ fails "create_energy" (fun p => energy_rate_name (fst p) ++ " " ++ dist_name (snd p)) energy_ok energy_pairs.
+Definition line_table_failures (id : Z) : string := line "T" id (show_list (fun s => s) table_failures).
+Local Open Scope Q_scope.
+
 (* ------------------------------------------------------------------ S lines *)
 (* exact value of a finite binary64 number *)
 Definition Q_of_float (f : float) : option Q :=
